@@ -670,6 +670,143 @@ theorem illegal_slot_reuse_leaks :
       .includeAll 0 ['m'] [] = [(['b'], ['y'])] := by
   decide
 
+/-! ## other subscriber compositions: a per-layer filter on the `MetricsLayer`, events, `follows_from`
+
+`FState` / `fstep` / `fEmit` (`Model/Tracing`): spans the layer's filter turned down exist in the registry without a
+`Labels` extension; an enabled span merges the map of its closest ENABLED ancestor; events and `follows_from` reach no
+callback of the layer. -/
+
+def finit : FState := {}
+
+theorem frun_append (f : FState) (a b : List FOp) : frun f (a ++ b) = frun (frun f a) b := by
+  simp [frun, List.foldl_append]
+
+/-- **Events and `follows_from` change nothing.**  Removing every `tracing::event!` (with whatever fields, under
+    whatever parent) and every `Span::follows_from` from a program leaves the state — every span's labels, every
+    thread's stack — exactly as it was; so no later key can depend on them. -/
+theorem events_follows_transparent (ops : List FOp) (f : FState) :
+    frun f ops = frun f (ops.filter (fun op => !op.silent)) := by
+  induction ops generalizing f with
+  | nil => rfl
+  | cons op r ih =>
+    cases op <;> simp [frun, FOp.silent, List.filter, fstep] <;> exact ih _
+
+/-- one step of the filtered subscriber is the translated step(s) of the unfiltered model -/
+theorem fstep_base (f : FState) (op : FOp) : (fstep f op).base = run f.base (ftransOp f op) := by
+  cases op with
+  | new t par fields en =>
+    cases en with
+    | true =>
+      cases h : labelParent f t par <;>
+        simp [fstep, ftransOp, run, step, onNewSpan, resolveParent, optParent, h]
+    | false => simp [fstep, ftransOp, run, step, onNewSpan, resolveParent, parentLabels, newSpanLabels, fromRecord]
+  | record t id fields =>
+    by_cases h : isHidden f id <;> simp [fstep, ftransOp, run, h]
+  | enter t id => simp [fstep, ftransOp, run]
+  | exit t id => simp [fstep, ftransOp, run]
+  | event t par fields => simp [fstep, ftransOp, run]
+  | followsFrom a b => simp [fstep, ftransOp, run]
+
+/-- **Every state a filtered subscriber reaches is a state of the unfiltered model** — reached by the translated
+    program (`ftrans`: enabled spans created under their closest enabled ancestor, hidden spans as field-less roots,
+    records on hidden spans / events / `follows_from` dropped).  Hence every theorem above about `run init ops`
+    (precedence, no duplicate names, the label set, …) holds for the keys of a filtered subscriber whenever the
+    current span is enabled for the layer (`fil_emit_enabled`). -/
+theorem fil_run_is_base_run (ops : List FOp) (f : FState) :
+    (frun f ops).base = run f.base (ftrans f ops) := by
+  induction ops generalizing f with
+  | nil => rfl
+  | cons op r ih =>
+    show (frun (fstep f op) r).base = run f.base (ftransOp f op ++ ftrans (fstep f op) r)
+    rw [ih (fstep f op), fstep_base]
+    simp [run, List.foldl_append]
+
+/-- with the current span enabled for the layer the key is the unfiltered model's key in the translated program -/
+theorem fil_emit_enabled (ops : List FOp) (flt : Filter) (t c : Nat) (name : Str) (labels : List (Str × Str))
+    (hc : current (frun finit ops).base t = some c) (he : isHidden (frun finit ops) c = false) :
+    fEmit (frun finit ops) flt t name labels = emit (run init (ftrans finit ops)) flt t name labels := by
+  have hb : (frun finit ops).base = run init (ftrans finit ops) := fil_run_is_base_run ops finit
+  simp only [fEmit, hc, he]
+  rw [hb]
+  simp
+
+/-- … in particular it never repeats a label name (distinct own names given) -/
+theorem fil_emit_no_duplicate_names (ops : List FOp) (flt : Filter) (t : Nat) (name : Str) (labels : List (Str × Str))
+    (hl : (FMap.keys labels).Nodup) :
+    (FMap.keys (fEmit (frun finit ops) flt t name labels)).Nodup := by
+  have hb : (frun finit ops).base = run init (ftrans finit ops) := fil_run_is_base_run ops finit
+  simp only [fEmit]
+  cases hc : current (frun finit ops).base t with
+  | none => simpa using hl
+  | some c =>
+    by_cases he : isHidden (frun finit ops) c
+    · simpa [he] using hl
+    · simp only [he]
+      rw [hb]
+      exact emit_no_duplicate_names (ftrans finit ops) flt t name labels hl
+
+/-- **Inside a span the layer's filter turned down the key is unchanged** — whatever its enabled ancestors carry:
+    `current_span()` is the hidden span, it has no `Labels`, `enhance_key` gives up -/
+theorem fil_hidden_current_unchanged (f : FState) (flt : Filter) (t c : Nat) (name : Str) (labels : List (Str × Str))
+    (hc : current f.base t = some c) (hh : isHidden f c = true) : fEmit f flt t name labels = labels := by
+  simp [fEmit, hc, hh]
+
+/-- a hidden span never has labels, and `record()` on it changes nothing anywhere -/
+theorem fil_hidden_no_labels (f : FState) (id t : Nat) (fields : List (Str × Value)) (hh : isHidden f id = true) :
+    fLabels f id = none ∧ fstep f (.record t id fields) = f := by
+  simp [fLabels, fstep, hh]
+
+/-- **A subscriber whose filter turns nothing down is the plain model**: same spans, same stacks, same keys -/
+theorem fil_no_hidden_eq (ops : List Op) :
+    (frun finit (ops.map FOp.ofOp)).base = run init ops ∧ (frun finit (ops.map FOp.ofOp)).hidden = [] := by
+  suffices h : ∀ (f : FState), f.hidden = [] →
+      (frun f (ops.map FOp.ofOp)).base = run f.base ops ∧ (frun f (ops.map FOp.ofOp)).hidden = [] from h finit rfl
+  induction ops with
+  | nil => intro f hf; exact ⟨rfl, hf⟩
+  | cons op r ih =>
+    intro f hf
+    have hlp : ∀ t par, parentLabels f.base (labelParent f t par) = parentLabels f.base (resolveParent f.base t par) := by
+      intro t par
+      simp only [labelParent]
+      cases hrp : resolveParent f.base t par with
+      | none => cases f.base.spans.length <;> simp [enabledFrom]
+      | some p =>
+        cases hn : f.base.spans.length with
+        | zero =>
+          have : f.base.spans = [] := List.eq_nil_of_length_eq_zero hn
+          simp [enabledFrom, parentLabels, this]
+        | succ n => simp [enabledFrom, isHidden, hf]
+    have hstep : (fstep f (FOp.ofOp op)).base = step f.base op ∧ (fstep f (FOp.ofOp op)).hidden = [] := by
+      cases op with
+      | newSpan t par fields => simp [FOp.ofOp, fstep, step, onNewSpan, hlp, hf]
+      | record t id fields => simp [FOp.ofOp, fstep, isHidden, hf]
+      | enter t id => simp [FOp.ofOp, fstep, hf]
+      | exit t id => simp [FOp.ofOp, fstep, hf]
+    have := ih (fstep f (FOp.ofOp op)) hstep.2
+    simp only [List.map_cons, frun, List.foldl_cons, run] at this ⊢
+    rw [hstep.1] at this
+    exact this
+
+/-- … and emits the plain model's keys -/
+theorem fil_no_hidden_emit (ops : List Op) (flt : Filter) (t : Nat) (name : Str) (labels : List (Str × Str)) :
+    fEmit (frun finit (ops.map FOp.ofOp)) flt t name labels = emit (run init ops) flt t name labels := by
+  obtain ⟨hb, hh⟩ := fil_no_hidden_eq ops
+  simp only [fEmit, isHidden, hh, hb]
+  cases hc : current (run init ops) t with
+  | none => simp [emit_unchanged_no_span _ _ _ _ _ hc]
+  | some c => simp
+
+/-- **The property's full wording is FALSE of a filtered layer** (witness, replayed on the real crates by the harness
+    corpus "per-layer filter: emission inside a hidden span"): outer span `a = 1` enabled and entered, inner span
+    hidden and entered; the metric is emitted "inside tracing spans", the ancestor's field `a` was there when the
+    inner span was created — and the key has no label.  The provable part is `fil_emit_enabled`. -/
+theorem fil_hidden_drops_ancestor_fields :
+    let ops : List FOp := [.new 0 .contextual [(['a'], .u64 1)] true, .enter 0 0, .new 0 .contextual [] false, .enter 0 1]
+    fEmit (frun finit ops) .includeAll 0 ['m'] [] = []
+    ∧ fLabels (frun finit ops) 0 = some [(['a'], ['1'])]
+    ∧ (frun finit ops).parents = [none, some 0] := by
+  decide
+
 /-! ## source facts: what ties the model's shape to the text of the crate -/
 
 /-- the pool is built with `Map::new` / `Map::clear` (`poolInit` / `poolReset`), `Labels::default()` pulls
@@ -736,6 +873,39 @@ theorem src_filter_construction :
     Generated.tracing_allowlist_fields = ["label_names:HashSet<String>"]
     ∧ Generated.tracing_only_allow = "{Self{label_filter:label_filter::Allowlist::new(allowed)}}"
     ∧ Generated.tracing_layer_all = "{Self{label_filter:label_filter::IncludeAll}}" := by
+  decide
+
+/-- `MetricsLayer` implements exactly `on_layer`, `on_new_span`, `on_record`: no `on_event`, `on_follows_from`,
+    `on_enter`, `on_exit`, `on_close`, `enabled` (the model's `fstep` does nothing on events / `follows_from`); the
+    three functions that decide what a key gets make exactly these calls with exactly this control flow (a guard on
+    a span's level, name or target would add calls and an `if` / `return` / `?`) -/
+theorem src_layer_inventory :
+    Generated.tracing_layer_fns = ["on_layer", "on_new_span", "on_record"]
+    ∧ Generated.tracing_on_new_span_all_calls
+        = ["span", "expect", "from_record", "new", "values", "parent", "extensions", "get", "extend_from_labels",
+           "extensions_mut", "insert"]
+    ∧ Generated.tracing_on_new_span_ctrl = ["if", "if"]
+    ∧ Generated.tracing_on_record_all_calls
+        = ["span", "expect", "from_record", "extensions_mut", "get_mut", "extend_from_labels_overwrite", "insert"]
+    ∧ Generated.tracing_on_record_ctrl = ["if", "else"]
+    ∧ Generated.tracing_on_layer_all_calls = ["downcast_ref", "span", "extensions", "f", "get"]
+    ∧ Generated.tracing_on_layer_ctrl = ["?", "?", "?"]
+    ∧ Generated.tracing_enhance_key_all_calls
+        = ["get_default", "current_span", "id", "downcast_ref", "is_empty", "then", "clone", "into_parts", "retain", "new",
+           "clone", "clone", "should_include_label", "extend", "into_iter", "map", "into_iter", "map", "new", "from_parts",
+           "with_labels"]
+    ∧ Generated.tracing_enhance_key_ctrl = ["?", "?"] := by
+  decide
+
+/-- the whole body of every `Visit` arm: the VALUE stored is the full `value` (`to_owned`, `itoa`, `{value:?}` without
+    width / precision / truncation), `Value.render` of the model -/
+theorem src_visit_values :
+    Generated.tracing_visit_bodies
+      = ["record_str:{self.0.insert(field.name().into(),value.to_owned().into());}",
+         "record_bool:{self.0.insert(field.name().into(),ifvalue{\"true\"}else{\"false\"}.into());}",
+         "record_i64:{letmutbuf=itoa::Buffer::new();lets=buf.format(value);self.0.insert(field.name().into(),s.to_owned().into());}",
+         "record_u64:{letmutbuf=itoa::Buffer::new();lets=buf.format(value);self.0.insert(field.name().into(),s.to_owned().into());}",
+         "record_debug:{self.0.insert(field.name().into(),format!(\"{value:?}\").into());}"] := by
   decide
 
 /-! ## non-vacuity: concrete programs -/
@@ -837,6 +1007,26 @@ private def rprog : List ROp :=
 example : legalRun rinit rprog = true := by decide
 example : rEmit (rrun rinit rprog) .includeAll 0 M [] = [(A, ['n', 'e', 'w']), (C, ['7'])] := by decide
 example : (rrun rinit rprog).ext 0 = some [(C, ['-', '1'])] ∧ (rrun rinit rprog).slotOf 1 = 0 := by decide
+
+
+/-! filtered layer: a child of a hidden span inherits from the closest enabled ancestor AS IT IS when the child is
+    created (the record on span 0 made after the hidden span 1 was created is seen by span 2) -/
+def fprog : List FOp :=
+  [.new 0 .contextual [(A, .str ['o']), (B, .empty)] true, .enter 0 0,
+   .new 0 .contextual [(C, .u64 9)] false, .enter 0 1,
+   .record 0 0 [(B, .str ['l', 'a', 't', 'e'])],
+   .record 0 1 [(C, .u64 10)],
+   .event 0 .contextual [(A, .str ['e', 'v'])],
+   .new 0 .contextual [(C, .i64 (-1))] true, .followsFrom 2 0, .enter 0 2]
+
+example : fLabels (frun finit fprog) 2 = some [(C, ['-', '1']), (A, ['o']), (B, ['l', 'a', 't', 'e'])] := by decide
+example : fLabels (frun finit fprog) 1 = none := by decide
+example : fEmit (frun finit fprog) .includeAll 0 M [(A, ['m'])] = [(C, ['-', '1']), (A, ['m']), (B, ['l', 'a', 't', 'e'])] := by
+  decide
+example : fEmit (frun finit (fprog ++ [.exit 0 2])) .includeAll 0 M [(A, ['m'])] = [(A, ['m'])] := by decide
+example : ftrans finit fprog =
+    [.newSpan 0 .root [(A, .str ['o']), (B, .empty)], .enter 0 0, .newSpan 0 .root [], .enter 0 1,
+     .record 0 0 [(B, .str ['l', 'a', 't', 'e'])], .newSpan 0 (.explicit 0) [(C, .i64 (-1))], .enter 0 2] := by rfl
 
 end examples
 
